@@ -52,10 +52,12 @@ func axisPredicate(root *axisNode) func(NodeNavigator) bool {
 				type namespaceURL interface {
 					NamespaceURL() string
 				}
+				// prefix:* has an empty local name: it matches every name in that namespace
+				localOK := root.LocalName == "" || root.LocalName == n.LocalName()
 				if ns, ok := n.(namespaceURL); ok && root.hasNamespaceURI {
-					return root.LocalName == n.LocalName() && root.namespaceURI == ns.NamespaceURL()
+					return localOK && root.namespaceURI == ns.NamespaceURL()
 				}
-				if root.LocalName == n.LocalName() && root.Prefix == n.Prefix() {
+				if localOK && root.Prefix == n.Prefix() {
 					return true
 				}
 			} else {
